@@ -650,6 +650,14 @@ class StmtMixin:
         mods = set(spec.modifies_locals) if spec.modifies_locals is not None else self.assigned_names(s.body)
         if kind == 'for':
             mods |= self.assigned_names([s.target])
+        finfo_ = getattr(s, '_pyvc_func', None)
+        if finfo_ is not None and spec.local_types:
+            known = self.assigned_names([finfo_.node]) | {a.arg for a in ast.walk(finfo_.node) if isinstance(a, ast.arg)}
+            missing = sorted(n for n in spec.local_types if n not in known and n not in st.env)
+            if missing:
+                # the loop contract names a local variable the function does not have (e.g. it was renamed): the contract
+                # does not attach to this version of the code -> undecided, never a violation
+                raise EngineError(f'loop contract at line {s.lineno} refers to local variable(s) {missing} that the function does not have')
         mods |= set(spec.local_types)
         for name in sorted(mods):
             if name in st.env or spec.local_types.get(name) is not None:
